@@ -21,6 +21,7 @@ import (
 	"github.com/goghcrow/yae/types"
 	"github.com/goghcrow/yae/val"
 	sqlfun "github.com/goghcrow/yae/ext/sql"
+	"github.com/goghcrow/yae/vm"
 )
 
 // coqTy renders an implementation type as a Coq term of Model.Ty.ty.
@@ -293,6 +294,30 @@ func main() {
 	// ---- built-in function signatures (fun.BuiltIn(), ext/sql.BuiltIn()) ----
 	sigTable("builtin_sigs", fun.BuiltIn())
 	sigTable("sql_sigs", sqlfun.BuiltIn())
+
+	// ---- VM: opcode numbering, intrinsic tables, constants ----
+	{
+		var xs []string
+		for _, n := range vm.VerifOpcodes() {
+			xs = append(xs, coqStr(n))
+		}
+		pf("Definition opcode_names : list string := [%s].\n\n", strings.Join(xs, "; "))
+		pf("(* built-in (name, parameter types) -> opcode replacing a call by value / jump scheme replacing a call by need *)\n")
+		var cbv, cbn []string
+		for _, f := range fun.BuiltIn() {
+			ft := f.Type.Fun()
+			op, need := vm.VerifIntrinsics(f)
+			if op != "" {
+				cbv = append(cbv, fmt.Sprintf("(%s, %s, %s)", coqStr(ft.Name), coqTys(ft.Param), coqStr(op)))
+			}
+			if need {
+				cbn = append(cbn, fmt.Sprintf("(%s, %s)", coqStr(ft.Name), coqTys(ft.Param)))
+			}
+		}
+		pf("Definition intrinsics_cbv : list (string * list ty * string) := [\n  %s].\n\n", strings.Join(cbv, ";\n  "))
+		pf("Definition intrinsics_cbn : list (string * list ty) := [\n  %s].\n\n", strings.Join(cbn, ";\n  "))
+		pf("Definition vm_consts : list (string * Z) := [(\"stackInit\", %d); (\"stackGrow\", %d); (\"limit\", %d)]%%Z.\n\n", vm.VerifStackInit, vm.VerifStackGrow, vm.VerifLimit)
+	}
 
 	// reserved identifiers (parser/lexer/reserved.go)
 	{
